@@ -347,6 +347,10 @@ func c03replay(c *Ctx, lines []string) {
 			c03embedded(c)
 			continue
 		}
+		if len(f) >= 7 && f[0] == "sequence" {
+			c03sequence(c, f[2], parseSparse(f[3]), parseSparse(f[4]), parseSparse(f[5]), c03parseSeq(f[6]))
+			continue
+		}
 		if len(f) >= 6 && f[0] == "history" {
 			c03history(c, f[2], f[3], unhxl(f[4]), c03parseEvents(f[5]))
 			continue
@@ -616,6 +620,166 @@ func c03history(c *Ctx, mode string, k0s string, truthList [][]byte, evs []c03ev
 	}
 	c.Count("history")
 	c.Emit("history %s %s %d %s %s | ok %s %s", c03constField(), mode, k0, hxl(truthList), c03eventsField(evs), strings.Join(verdicts, ","), strings.Join(caches, "/"))
+}
+
+// ---------------------------------------------------------------- sequences on ONE validator, all four eras, fixed accumulators
+//
+//	sequence <consts> <src> <epochs> <roots> <summaries> <events> | ok <verdict_1,..,verdict_n>
+//
+//	src     custom = hook-built validator (public constructor, accumulators replaced) over exactly the accumulators on the line
+//	        public = validation.NewHeaderValidatorWithHistorySummaries(<summaries>) : embedded mainnet epoch/root accumulators
+//	                 (the line carries their lengths and the entries the events address), caller-supplied summaries, no oracle
+//	events  ';' separated, each number~hdr~hash~proofhex~truth ; hdr = syn:/synd:/rlp: as in validate lines
+//	Whatever a validator remembers between calls, the verdict of every call must be the one of a fresh validator
+//	(validate_step: no state before Shanghai, only the summaries cache after).
+func c03seqField(evs []c03event) string {
+	p := make([]string, len(evs))
+	for i, e := range evs {
+		p[i] = fmt.Sprintf("%d~%s~%s~%s~%s", e.number, e.hdr, hx(e.hash), hx(e.proof), e.truth)
+	}
+	return strings.Join(p, ";")
+}
+func c03parseSeq(s string) []c03event {
+	var evs []c03event
+	for _, e := range strings.Split(s, ";") {
+		f := strings.Split(e, "~")
+		n, _ := strconv.ParseUint(f[0], 10, 64)
+		evs = append(evs, c03event{number: n, hdr: f[1], hash: unhx(f[2]), proof: unhx(f[3]), truth: f[4]})
+	}
+	return evs
+}
+
+func c03sequence(c *Ctx, src string, epochs, roots, sums sparse, evs []c03event) {
+	var v validation.HeaderValidator
+	if src == "public" {
+		v = validation.NewHeaderValidatorWithHistorySummaries(c03summaries(sums.full()))
+	} else {
+		rf := roots.full()
+		r32 := make([][32]byte, len(rf))
+		for i := range rf {
+			copy(r32[i][:], rf[i])
+		}
+		v = validation.VerifNewHeaderValidator(epochs.full(), r32, c03summaries(sums.full()), nil)
+	}
+	var verdicts []string
+	for _, e := range evs {
+		var err error
+		p, _ := guard(func() {
+			switch {
+			case strings.HasPrefix(e.hdr, "syn:"):
+				err = v.ValidateHeaderAndProof(c03header(e.number, unhx(e.hdr[4:])), e.proof)
+			case strings.HasPrefix(e.hdr, "rlp:"):
+				err = v.ValidateHeaderWithProof(&thistory.BlockHeaderWithProof{Header: unhx(e.hdr[4:]), Proof: e.proof})
+			default:
+				panic("bad hdr field")
+			}
+		})
+		switch {
+		case p:
+			verdicts = append(verdicts, "p")
+		case err != nil:
+			verdicts = append(verdicts, "e")
+		default:
+			verdicts = append(verdicts, "ok")
+		}
+		c.Count("sequence_step")
+		c.Count("sequence_step_era_" + strconv.Itoa(c03eraOf(e.number)))
+	}
+	c.Count("sequence")
+	c.Emit("sequence %s %s %s %s %s %s | ok %s", c03constField(), src, epochs, roots, sums, c03seqField(evs), strings.Join(verdicts, ","))
+}
+
+// honest(h); corrupted(h); wrong-slot(h) resp. the proof of h' for h; garbage(h) twice; honest(h'); corrupted(h')
+func (g c03gen) seqEvents(h, h2 c03case) []c03event {
+	ev := func(k c03case, proof []byte, truth string) c03event {
+		return c03event{number: k.number, hdr: k.hdr, hash: k.hash, proof: proof, truth: truth}
+	}
+	flip := func(p []byte) []byte {
+		m := append([]byte{}, p...)
+		m[g.r.Intn(len(m)-8)] ^= byte(1 << g.r.Intn(8))
+		return m
+	}
+	evs := []c03event{ev(h, h.proof, "honest"), ev(h, flip(h.proof), "corrupt")}
+	if c03eraOf(h.number) == 0 {
+		evs = append(evs, ev(h, h2.proof, "otherproof"))
+	} else {
+		m := append([]byte{}, h.proof...)
+		slot := binary.LittleEndian.Uint64(m[len(m)-8:])
+		binary.LittleEndian.PutUint64(m[len(m)-8:], slot+8192)
+		evs = append(evs, ev(h, m, "wrongslot-next-period"))
+		m2 := append([]byte{}, h.proof...)
+		m2[32*map[int]int{1: 14, 2: 13, 3: 13}[c03eraOf(h.number)]+g.r.Intn(32)] ^= 0x20
+		evs = append(evs, ev(h, m2, "corrupt-root"))
+	}
+	evs = append(evs, ev(h, g.r.Bytes(len(h.proof)), "garbage"), ev(h, g.r.Bytes(3), "garbage-3-bytes"),
+		ev(h2, h2.proof, "honest"), ev(h2, flip(h2.proof), "corrupt"))
+	return evs
+}
+
+func (g c03gen) sequences() {
+	c := g.c
+	nEp := c03consts["PreMergeEpochs"]
+	// pre-merge, synthetic accumulator (two epochs)
+	{
+		h := g.preMerge(g.randNumber(0), nEp, 15, "honest")
+		h2 := g.preMerge(g.randNumber(0), nEp, 15, "honest")
+		ep := newSparse(nEp).with(h.number/8192, h.epochs.ent[h.number/8192])
+		if h2.number/8192 == h.number/8192 {
+			h2 = g.preMerge(h.number^8192, nEp, 15, "honest")
+		}
+		ep.ent[h2.number/8192] = h2.epochs.ent[h2.number/8192]
+		c03sequence(c, "custom", ep, newSparse(0), newSparse(0), g.seqEvents(h, h2))
+	}
+	// pre-merge, the public constructor's validator on two of the repository's mainnet vectors
+	{
+		def := validation.NewHeaderValidatorWithOracle(nil)
+		epochs, roots, _ := def.VerifAccumulators()
+		raw, err := os.ReadFile(filepath.Join(c03repo(), "validation/testdata/header_with_proofs.json"))
+		if err != nil {
+			panic(err)
+		}
+		m := map[string]map[string]string{}
+		if err := json.Unmarshal(raw, &m); err != nil {
+			panic(err)
+		}
+		keys := make([]string, 0, len(m))
+		for k := range m {
+			keys = append(keys, k)
+		}
+		sort.Strings(keys)
+		ep := newSparse(uint64(len(epochs)))
+		var two []c03case
+		for _, i := range []int{g.r.Intn(len(keys) / 2), len(keys)/2 + g.r.Intn(len(keys)-len(keys)/2)} {
+			hwp, err := thistory.DecodeBlockHeaderWithProof(unhx(strings.TrimPrefix(m[keys[i]]["value"], "0x")))
+			if err != nil {
+				panic(err)
+			}
+			hd := new(types.Header)
+			if err := rlp.DecodeBytes(hwp.Header, hd); err != nil {
+				panic(err)
+			}
+			n := hd.Number.Uint64()
+			ep.ent[n/8192] = epochs[n/8192]
+			two = append(two, c03case{hdr: "rlp:" + hx(hwp.Header), number: n, hash: hd.Hash().Bytes(), proof: hwp.Proof})
+		}
+		c03sequence(c, "public", ep, newSparse(uint64(len(roots))), newSparse(0), g.seqEvents(two[0], two[1]))
+	}
+	// Merge .. Shanghai, synthetic historical roots
+	{
+		h := g.postMerge(g.randNumber(1), 1, c03slot(1, 700, g.r.U64()%8192), 758, "nil", "honest")
+		h2 := g.postMerge(g.randNumber(1), 1, c03slot(1, 600, g.r.U64()%8192), 758, "nil", "honest")
+		ro := newSparse(758).with(700, h.roots.ent[700]).with(600, h2.roots.ent[600])
+		c03sequence(c, "custom", newSparse(0), ro, newSparse(0), g.seqEvents(h, h2))
+	}
+	// Shanghai .. Cancun and Cancun onwards: the public constructor with caller-supplied summaries
+	for _, era := range []int{2, 3} {
+		h := g.postMerge(g.randNumber(era), era, c03slot(era, 1, g.r.U64()%8192), 4, "nil", "honest")
+		h2 := g.postMerge(g.randNumber(5-era), 5-era, c03slot(5-era, 3, g.r.U64()%8192), 4, "nil", "honest")
+		su := newSparse(4).with(1, h.sums.ent[1]).with(3, h2.sums.ent[3])
+		def := validation.NewHeaderValidatorWithOracle(nil)
+		epochs, roots, _ := def.VerifAccumulators()
+		c03sequence(c, "public", newSparse(uint64(len(epochs))), newSparse(uint64(len(roots))), su, g.seqEvents(h, h2))
+	}
 }
 
 // one honest (header, proof) per summary period; the true summaries list is made of the roots these proofs fold to
@@ -995,6 +1159,9 @@ func (g c03gen) wrongSlot() {
 			k := g.postMerge(g.randNumber(era), era, s, acc, oracle, "honest")
 			c03exec(c, k)
 			for _, d := range ks {
+				if oracle != "nil" && d != 1 && d != 758 {
+					continue
+				}
 				reslot(k, s-d*8192, fmt.Sprintf("minus-%d-periods", d))
 				if oracle == "nil" && (d == 1 || d == 758 || d == 1<<40) {
 					reslot(k, s+d*8192, fmt.Sprintf("plus-%d-periods", d))
@@ -1002,7 +1169,7 @@ func (g c03gen) wrongSlot() {
 			}
 		}
 		// exactly at / just above the Capella start, claimed one period earlier; record 8192-off claimed at capella_start - off
-		for _, s := range []uint64{cap0, cap0 + 1, cap0 + 8192 - 1, cap0 + 8192 - 77, cap0 + 8192 - 8191} {
+		for _, s := range []uint64{cap0, cap0 + 8192 - 1, cap0 + 8192 - 77, cap0 + 8192 - 8191} {
 			k := g.postMerge(g.randNumber(era), era, s, 2, "nil", "honest")
 			c03exec(c, k)
 			reslot(k, s-8192, fmt.Sprintf("below-capella-start-by-%d", cap0-(s-8192)))
@@ -1296,7 +1463,7 @@ func runC03(c *Ctx) {
 	thorough := c.Tier == "thorough"
 	c03embedded(c)
 	g.witness()
-	maxPre, nRandom, nSweeps, nEpochs, stride := 6, 30, 1, 2, 2
+	maxPre, nRandom, nSweeps, nEpochs, stride := 6, 10, 1, 2, 2
 	if thorough {
 		maxPre, nRandom, nSweeps, nEpochs, stride = 1000, 1500, 12, 24, 1
 	}
@@ -1327,6 +1494,7 @@ func runC03(c *Ctx) {
 		g.prover([]int{1, 3, 20})
 	}
 	c03bhwp(c, g.chain(3), 1)
+	g.sequences()
 	if thorough {
 		g.histories(60)
 	} else {
